@@ -404,7 +404,7 @@ func (it *interp) evalFunc(fn *ssa.Function, args []iv) (iv, error) {
 				case "math/rand.Float64", "math/rand/v2.Float64":
 					vals[x] = ivF(0, 1)
 				case "(time.Duration).Nanoseconds":
-					a, err := get(x.Call.Args[0])
+					a, err := get(PArgs(&x.Call)[0])
 					if err != nil {
 						return iv{}, err
 					}
@@ -416,7 +416,7 @@ func (it *interp) evalFunc(fn *ssa.Function, args []iv) (iv, error) {
 						continue
 					}
 					var as []iv
-					for _, av := range x.Call.Args {
+					for _, av := range PArgs(&x.Call) {
 						a, err := get(av)
 						if err != nil {
 							return iv{}, err
@@ -544,7 +544,7 @@ func (it *interp) evalValue(v ssa.Value, depth int) (iv, error) {
 		case *ssa.Call:
 			if f := StaticFunc(x.Common()); f != nil && it.p.IsModFunc(f) {
 				var as []iv
-				for _, av := range x.Call.Args {
+				for _, av := range PArgs(&x.Call) {
 					a, err := it.evalValue(av, depth+1)
 					if err != nil {
 						return iv{}, err
@@ -594,7 +594,7 @@ func (it *interp) evalInit(v ssa.Value, depth int) (iv, bool) {
 		return it.constIV(x)
 	case *ssa.Call:
 		if CalleeName(x.Common()) == "math.Log2" {
-			if f, ok := it.evalInit(x.Call.Args[0], depth+1); ok && f.kind == 'f' && f.flo > 0 {
+			if f, ok := it.evalInit(PArgs(&x.Call)[0], depth+1); ok && f.kind == 'f' && f.flo > 0 {
 				return ivF(down(math.Log2(f.flo)), up(math.Log2(f.fhi))), true
 			}
 		}
@@ -790,7 +790,7 @@ func c08Intervals(c *Ctx, p *Prog, fn *ssa.Function) {
 		c.Unk("C08.I", "signature", p, fn.Pos(), "ExponentialBackoffDuration no longer takes exactly one argument")
 		return
 	}
-	lo0, hi0, ok := typeRange(fn.Params[0].Type())
+	lo0, hi0, ok := typeRange(ParamAt(fn, 0).Type())
 	if !ok {
 		c.Unk("C08.I", "signature", p, fn.Pos(), "argument type is not an integer type")
 		return
@@ -818,7 +818,7 @@ func c08Intervals(c *Ctx, p *Prog, fn *ssa.Function) {
 			return
 		}
 		for _, pair := range [][2]ssa.Value{{bo.X, bo.Y}, {bo.Y, bo.X}} {
-			if pair[0] == ssa.Value(fn.Params[0]) || Peel(pair[0]) == ssa.Value(fn.Params[0]) {
+			if pair[0] == ssa.Value(ParamAt(fn, 0)) || Peel(pair[0]) == ssa.Value(ParamAt(fn, 0)) {
 				if v, ok := it0.lastValsTop[pair[1]]; ok && v.kind == 'i' && v.ilo.Cmp(v.ihi) == 0 {
 					thr = append(thr, v.ilo)
 				} else if cst, ok := pair[1].(*ssa.Const); ok {
@@ -963,7 +963,7 @@ func c08Loop(c *Ctx, p *Prog) {
 	bo := CallResult(Args(CallOf(sleep))[0], 0, ModPath+"/agent/utils.ExponentialBackoffDuration")
 	var phi *ssa.Phi
 	if bo != nil {
-		phi, _ = bo.Call.Args[0].(*ssa.Phi)
+		phi, _ = PArgs(&bo.Call)[0].(*ssa.Phi)
 	}
 	c.Check("C08.L", "sleep:duration-is-backoff-of-counter", p, sleep.Pos(), bo != nil && phi != nil, "time.Sleep(ExponentialBackoffDuration(<loop-carried counter>))", "the sleep duration is not ExponentialBackoffDuration(<loop-carried counter>): "+PathOf(Args(CallOf(sleep))[0]))
 	if phi == nil {
